@@ -1,5 +1,13 @@
-//! engine binary skeleton: see ../CONTRIBUTING.md
+//! vmon_resp: monitors for C12 (typed responses), C13 (error contract, request
+//! ids, status types) and C14 (page tokens, limits).  See ../CONTRIBUTING.md.
 use vmon::report::Report;
+
+mod c12;
+mod c13;
+mod c14;
+mod gen;
+mod jsonp;
+mod types;
 
 pub struct Args {
     pub engine: String,
@@ -31,7 +39,6 @@ fn parse_args() -> Args {
 }
 
 /// run `f(shard)` on `n` threads and merge the reports
-#[allow(dead_code)]
 fn sharded<F>(n: usize, f: F) -> Report
 where
     F: Fn(u64) -> Report + Send + Sync + 'static,
@@ -59,10 +66,56 @@ fn main() {
     vmon::panics::install();
     let args = parse_args();
     let t0 = std::time::Instant::now();
-    let _quick = args.tier != "thorough";
-    let mut rep: Report = match args.engine.as_str() {
-        // "<engine-name>" => ...,
+    let quick = args.tier != "thorough";
+    let seed = args.seed;
+    let n = args.threads.max(1);
+    // live engines: client threads (each one keep-alive connection at a time)
+    let clients = (n / 2).clamp(2, 16);
+    let scale: u64 = if quick { 1 } else { 100 };
+    let engine = args.engine.clone();
+    let run = move || -> Report {
+        match engine.as_str() {
+        "c12-inproc" => {
+            let cases = 20_000 * scale;
+            sharded(n, move |s| c12::run_inproc(seed, s, cases))
+        }
+        "c12-live" => c12::run_live(seed, clients, 3_000 * scale),
+        "c13-inproc" => {
+            let cases = 20_000 * scale;
+            let mut rep = sharded(n, move |s| c13::run_errors(seed, s, cases));
+            let ex = c13::run_status_exhaustive();
+            rep.engine = "E1-into_response+status-types-exhaustive".into();
+            rep.rule = format!("(a) {} (b) {}", c13::RULE_ERRORS, c13::RULE_STATUS);
+            rep.extra.insert(
+                "exhaustive_scope".into(),
+                serde_json::json!("part (b) only: the status refinement types over all u16 / all StatusCodes / all 3-digit strings"),
+            );
+            rep.merge(ex);
+            rep
+        }
+        "c13-errors" => {
+            let cases = 20_000 * scale;
+            sharded(n, move |s| c13::run_errors(seed, s, cases))
+        }
+        "c13-status" => c13::run_status_exhaustive(),
+        "c13-live" => c13::run_live(seed, clients, 2_500 * scale),
+        "c14-inproc" => {
+            let (cases, mutated) = if quick { (4_000, 2) } else { (400_000, 100) };
+            sharded(n, move |s| c14::run_inproc(seed, s, cases, mutated))
+        }
+        "c14-live" => c14::run_live(seed, clients, 2_000 * scale),
         _ => usage(),
+        }
+    };
+    // a panic of the harness itself (not inside catch_quiet) must be visible
+    let mut rep: Report = match std::panic::catch_unwind(run) {
+        Ok(r) => r,
+        Err(_) => {
+            for p in vmon::panics::unexpected() {
+                eprintln!("harness panic at {} [{}]: {}", p.location, p.thread, p.message);
+            }
+            std::process::exit(3);
+        }
     };
     for p in vmon::panics::take_unexpected() {
         rep.violate(
